@@ -113,8 +113,8 @@ pub fn make_prog(members: Vec<Member>, space: &'static str, key: String) -> Stru
 }
 
 fn member_names() -> [&'static str; 3] {
-    // deliberately not in alphabetical order
-    ["m_b", "m_a", "m_c"]
+    // deliberately not in alphabetical order, and in three identifier styles (snake, camel, upper)
+    ["m_b", "viewProj", "MVP"]
 }
 
 /// 1-field, 2-field (full product) and 3-field (representatives) structs, plus `@size/@align` members
